@@ -111,9 +111,13 @@ unsafe fn mmap_anon(len: usize, prot: i32) -> usize {
 }
 
 /// [below][pages...][above]: `below`/`above` in {"guard","hole","mapped"}; returns the start of the inner pages
-unsafe fn carve(pages: usize, below: &str, above: &str, prot: i32) -> usize {
+/// `at`: 0 = wherever the kernel puts it, otherwise the address of the page below the inner pages (e.g. below the executable)
+unsafe fn carve(pages: usize, below: &str, above: &str, at: usize) -> usize {
     let total = (pages + 2) * PAGE;
-    let base = mmap_anon(total, libc::PROT_NONE);
+    let base = if at == 0 { mmap_anon(total, libc::PROT_NONE) } else {
+        let p = libc::mmap(at as *mut libc::c_void, total, libc::PROT_NONE, libc::MAP_PRIVATE | libc::MAP_ANONYMOUS | libc::MAP_FIXED_NOREPLACE, -1, 0);
+        if p == libc::MAP_FAILED { mmap_anon(total, libc::PROT_NONE) } else { p as usize }
+    };
     let inner = base + PAGE;
     libc::mprotect(inner as *mut _, pages * PAGE, libc::PROT_READ | libc::PROT_WRITE);
     for (name, at) in [(below, base), (above, inner + pages * PAGE)] {
@@ -128,7 +132,6 @@ unsafe fn carve(pages: usize, below: &str, above: &str, prot: i32) -> usize {
             _ => {} // guard: stays PROT_NONE
         }
     }
-    let _ = prot;
     inner
 }
 
@@ -205,7 +208,7 @@ fn main() {
         let pages = (lead + len + PAGE - 1) / PAGE;
         let below = r["below"].as_str().unwrap_or("guard");
         let above = r["above"].as_str().unwrap_or("guard");
-        let inner = unsafe { carve(pages.max(1), below, above, 0) };
+        let inner = unsafe { carve(pages.max(1), below, above, r["low_addr"].as_u64().unwrap_or(0) as usize) };
         fill_pattern(inner, pages.max(1) * PAGE);
         // "image": the bytes of this file at the start of the (anonymous) mapping
         if let Some(b) = r["image"].as_str().and_then(|p| std::fs::read(p).ok()) {
@@ -249,9 +252,17 @@ fn main() {
         let prot = if f["exec"].as_bool().unwrap_or(false) { libc::PROT_READ | libc::PROT_EXEC } else { libc::PROT_READ };
         match std::fs::File::open(p) {
             Ok(fh) => {
+                // "guard_after": n pages of inaccessible anonymous memory directly after the file mapping (the reservation a
+                // linker leaves behind a library's text): the address range is reserved first and the file mapped over its start
+                let guard_after = f["guard_after"].as_u64().unwrap_or(0) as usize;
+                let reserved = if guard_after > 0 && f["fixed"].as_u64().unwrap_or(0) == 0 {
+                    let rlen = ((len + PAGE - 1) / PAGE + guard_after) * PAGE;
+                    let r = unsafe { libc::mmap(std::ptr::null_mut(), rlen, libc::PROT_NONE, libc::MAP_PRIVATE | libc::MAP_ANONYMOUS, -1, 0) };
+                    if r == libc::MAP_FAILED { 0 } else { r as usize }
+                } else { 0 };
                 // "fixed": map at this address (an image linked at a fixed address, i.e. not position independent)
-                let fixed = f["fixed"].as_u64().unwrap_or(0) as usize;
-                let flags = if fixed != 0 { libc::MAP_PRIVATE | libc::MAP_FIXED_NOREPLACE } else { libc::MAP_PRIVATE };
+                let fixed = if reserved != 0 { reserved } else { f["fixed"].as_u64().unwrap_or(0) as usize };
+                let flags = if reserved != 0 { libc::MAP_PRIVATE | libc::MAP_FIXED } else if fixed != 0 { libc::MAP_PRIVATE | libc::MAP_FIXED_NOREPLACE } else { libc::MAP_PRIVATE };
                 let a = unsafe { libc::mmap(fixed as *mut libc::c_void, len, prot, flags, fh.as_raw_fd(), off as i64) };
                 if a == libc::MAP_FAILED {
                     fmaps.push(json!({"path": p, "error": "mmap"}));
@@ -308,6 +319,10 @@ fn main() {
     o.flush().unwrap();
     drop(o);
 
+    if cfg.get("main_rsp0").and_then(|v| v.as_bool()).unwrap_or(false) {
+        // the main thread too runs without a stack from now on (a sandboxed process): it only sleeps in pause()
+        unsafe { std::arch::asm!("xor rsp, rsp", "2:", "mov eax, 34", "syscall", "jmp 2b", options(noreturn)) };
+    }
     if cfg.get("leader_exits").and_then(|v| v.as_bool()).unwrap_or(false) {
         // only this thread exits: the thread-group leader becomes a zombie while the other threads keep running
         unsafe { libc::syscall(libc::SYS_exit, 0) };
@@ -369,7 +384,8 @@ fn thread_main(slot: usize, t: Value, regions: std::collections::HashMap<String,
     let pages = t["stack_pages"].as_u64().unwrap_or(4) as usize;
     let below = t["below"].as_str().unwrap_or("guard").to_string();
     let above = t["above"].as_str().unwrap_or("guard").to_string();
-    let stack = unsafe { carve(pages, &below, &above, 0) };
+    // "low_addr": the stack is mapped at this fixed address (below the executable), not where the kernel would put it
+    let stack = unsafe { carve(pages, &below, &above, t["low_addr"].as_u64().unwrap_or(0) as usize) };
     fill_pattern(stack, pages * PAGE);
     let sp_off = t["sp_off"].as_u64().unwrap_or((pages * PAGE - 256) as u64) as usize;
     let sp = if mode == "rsp0" { 0 } else if let Some(abs) = t.get("sp_abs_below").and_then(|v| v.as_u64()) {
